@@ -98,6 +98,9 @@ func NewParser(grammar *Grammar) (*Parser, error) {
 
 // Parse attempts to run the parser for the given input.
 func (p *Parser) Parse(llk *LLk, st *semantic.Statement) error {
+	// Whatever the outcome, do not leave the lexer goroutine blocked on tokens
+	// that will never be read (for instance after a parse error).
+	defer llk.drain()
 	b, err := p.consume(llk, st, "START")
 	if err != nil {
 		return err
